@@ -154,8 +154,8 @@ class DBFSStore(Store):
         from .pandas import PandasFileCodec
 
         slfc = StringLocalFileCodec()
-        plfc = BytesFileCodec()
-        bfc = PickleLocalFileCodec()
+        plfc = PickleLocalFileCodec()
+        bfc = BytesFileCodec()
 
         self._registry = CodecRegistry(
             [PySparkDatabricksCodec()],
